@@ -99,7 +99,11 @@ func walkStructFields(t reflect.Type, prefix []string, leaves *[]cfgLeaf, levels
 			if ft.Kind() == reflect.Ptr {
 				ft = ft.Elem()
 			}
-			walkStructFields(ft, prefix, leaves, levels, depth+1)
+			if ft.Kind() == reflect.Struct {
+				walkStructFields(ft, prefix, leaves, levels, depth+1)
+			}
+			// an inlined map collects every key the struct does not define: it adds no key path of its own (whether
+			// such keys are then accepted is what the unknown-key parts find out on the real parser)
 			continue
 		}
 		walkConfigType(f.Type, append(append([]string{}, prefix...), name), leaves, levels, depth+1)
